@@ -317,7 +317,7 @@ public:
 				std::string hs = op.s.empty() ? handshake_text(cc[ci], 0) : op.s;
 				if (!op.s.empty()) {
 					cc[ci].handshake_valid = !(op.c & 1);
-					size_t kp = hs.find("Sec-WebSocket-Key: ");
+					size_t kp = model::folded(hs).find("sec-websocket-key: ");
 					if (kp != std::string::npos) { size_t ke = hs.find("\r\n", kp); cc[ci].ws_key = hs.substr(kp + 19, ke == std::string::npos ? std::string::npos : ke - kp - 19); }
 					if (op.d > 0 && (size_t)op.d < hs.size()) { hs.resize((size_t)op.d); cc[ci].hs_truncated = true; cc[ci].handshake_valid = false; cc[ci].poisoned = true; }
 					vd.labels.insert(cc[ci].handshake_valid ? "handshake:valid-variant" : cc[ci].hs_truncated ? "handshake:truncated" : "handshake:invalid");
@@ -372,7 +372,7 @@ public:
 			vd.labels.insert(kind == 1 ? "end:eof" : kind == 2 ? "end:hup" : "end:reset");
 			return;
 		}
-		case BYTES: k.send(c.kc, op.s); vd.stat["raw_bytes"] += (long)op.s.size(); return;
+		case BYTES: k.send(c.kc, op.s); vd.stat["raw_bytes"] += (long)op.s.size(); c.poisoned = true; c.unchecked = true; return; // arbitrary bytes: only robustness is judged on this stream
 		case MSG: {
 			k.send(c.kc, frame_for(c, op.s));
 			ModelEvent e; e.conn = ci; e.seq = evs.size();
